@@ -349,6 +349,7 @@ def check_kani_property(prop, spec, tier):
     negatives = set(spec.get("negative", []))
     known = spec.get("known", {})  # harness -> {key, match:[substr]}
     violations = []
+    extra_failing = []
     unreplayed = []
     known_hits = []
     nontrivial = 0
@@ -424,7 +425,12 @@ def check_kani_property(prop, spec, tier):
                 known_hits.append((k, h))
                 nontrivial += 1
                 continue
-        # genuine counterexample candidate: replay
+        # genuine counterexample candidate: replay (a replayed violation is conclusive; further failing
+        # harnesses are listed but not replayed one by one - each replay costs minutes)
+        if len(violations) >= 2:
+            rec["replay"] = "not replayed (two violations already confirmed in this run)"
+            extra_failing.append((h, [f["desc"] for f in r["failed"][:3]]))
+            continue
         log("[%s] counterexample in %s: %s" % (prop, h, "; ".join(f["desc"] for f in r["failed"][:4])))
         gcrate = g.get("crate", crate)
         tests = []
@@ -487,6 +493,7 @@ def check_kani_property(prop, spec, tier):
         "cglue_functions_reached_n": len(reached),
         "invocations": metas,
         "known_findings_hit": [{"key": k["key"], "harness": h} for k, h in known_hits],
+        "further_failing_harnesses_not_replayed": [{"harness": h, "failed": d} for h, d in extra_failing],
         "inconclusive": [{"harness": h, "why": w} for h, w in inconclusive],
         "repo": repo_state(),
     }
@@ -500,6 +507,8 @@ def check_kani_property(prop, spec, tier):
         for h, rpath, failed in violations:
             log("VIOLATION property=%s replay=%s" % (prop, rpath))
             log("  harness %s: %s" % (h, "; ".join(f["desc"] for f in failed[:4])))
+        for h, d in extra_failing:
+            log("  also failing (not replayed): %s: %s" % (h, "; ".join(d)))
         return 1
     if unreplayed:
         for h, rpath, failed in unreplayed:
